@@ -163,7 +163,15 @@ func (p *Prog) lowerTop(fi *FuncInfo, ct *Contract) (fv *FuncIVL, err error) {
 	}
 	// body
 	fr.retBlock = f.newBlock("ret")
+	perReturn := ct != nil && ct.PerReturn && len(fr.deferGuard) == 0
+	l.topEnv = env
+	l.topChain = chain
+	l.topEnss = enss
+	l.topCt = ct
 	l.block(fi.Body)
+	if perReturn && l.cur != nil {
+		l.emitEnsures()
+	}
 	l.jump(fr.retBlock)
 	l.cur = fr.retBlock
 	l.runDefers(fr)
@@ -180,10 +188,12 @@ func (p *Prog) lowerTop(fi *FuncInfo, ct *Contract) (fv *FuncIVL, err error) {
 			env[n] = envEntry{rv, resTypes[i]}
 		}
 	}
-	for _, c := range enss {
-		t := l.specTerm(c, nil)
-		props := clauseProps(ct, c)
-		l.assertOb("ensures", c.Label, c.Src, nil, t, props)
+	if !perReturn {
+		for _, c := range enss {
+			t := l.specTerm(c, nil)
+			props := clauseProps(ct, c)
+			l.assertOb("ensures", c.Label, c.Src, nil, t, props)
+		}
 	}
 	// frame obligations
 	l.frameObligations(ct, chain)
@@ -212,6 +222,7 @@ func (p *Prog) lowerTop(fi *FuncInfo, ct *Contract) (fv *FuncIVL, err error) {
 		pre = append(pre, &Stmt{Kind: SAssign, Var: v, Sort: f.Vars[v], E: V(base, f.Vars[base])})
 	}
 	f.Entry.Stmts = append(pre, f.Entry.Stmts...)
+	insertSnapshots(f, "@it", l.itPoints, len(pre))
 	// acq(...) snapshots at every lock acquisition (later acquisitions overwrite earlier ones)
 	var acqs []string
 	for v := range f.Vars {
@@ -451,6 +462,9 @@ func (l *Lowerer) frameObligations(ct *Contract, chain []*Contract) {
 		if strings.HasPrefix(hv, "M.") && mapsAllowed {
 			continue
 		}
+		if l.p.isGuardedHeapVar(hv) {
+			continue // guarded fields change under other goroutines while the lock is not held: no frame claim
+		}
 		srt := l.f.Vars[hv]
 		cur := V(hv, srt)
 		l.f.declare(hv+"@old", srt)
@@ -567,4 +581,82 @@ func (p *Prog) lemmaQueries(prop string) []*Query {
 		out = append(out, qs...)
 	}
 	return out
+}
+
+// insertSnapshots assigns every variable X<suffix> := X at the recorded points.
+func insertSnapshots(f *FuncIVL, suffix string, points []acqPoint, entryShift int) {
+	var names []string
+	for v := range f.Vars {
+		if strings.HasSuffix(v, suffix) {
+			names = append(names, v)
+		}
+	}
+	if len(names) == 0 {
+		return
+	}
+	sort.Strings(names)
+	pts := append([]acqPoint{}, points...)
+	sort.SliceStable(pts, func(i, j int) bool {
+		if pts[i].b.ID != pts[j].b.ID {
+			return pts[i].b.ID < pts[j].b.ID
+		}
+		return pts[i].idx > pts[j].idx
+	})
+	for _, pt := range pts {
+		var ins []*Stmt
+		for _, v := range names {
+			base := strings.TrimSuffix(v, suffix)
+			if _, ok := f.Vars[base]; !ok {
+				continue
+			}
+			ins = append(ins, &Stmt{Kind: SAssign, Var: v, Sort: f.Vars[v], E: V(base, f.Vars[base])})
+		}
+		idx := pt.idx
+		if pt.b == f.Entry {
+			idx += entryShift
+		}
+		st := append([]*Stmt{}, pt.b.Stmts[:idx]...)
+		st = append(st, ins...)
+		st = append(st, pt.b.Stmts[idx:]...)
+		pt.b.Stmts = st
+	}
+}
+
+func (p *Prog) isGuardedHeapVar(hv string) bool {
+	for key, fields := range p.guardedBy {
+		owner := key[:strings.LastIndex(key, ".")]
+		for _, f := range fields {
+			if strings.HasPrefix(f, "contents(") {
+				continue
+			}
+			if hv == "F."+owner+"."+f || strings.HasPrefix(hv, "F."+owner+"."+f+".") {
+				return true
+			}
+		}
+	}
+	return false
+}
+
+// emitEnsures asserts the postconditions at the current point (a return statement), with the result
+// names bound to the result variables.
+func (l *Lowerer) emitEnsures() {
+	fr := l.fr
+	fi := fr.fi
+	env := map[string]envEntry{}
+	for i := range fr.results {
+		rv := V(fr.results[i], l.f.Vars[fr.results[i]])
+		env[fmt.Sprintf("$r%d", i)] = envEntry{rv, fr.resTypes[i]}
+		for _, c := range l.topChain {
+			if i < len(c.Returns) {
+				env[c.Returns[i]] = envEntry{rv, fr.resTypes[i]}
+			}
+		}
+		if n := fi.Sig.Results().At(i).Name(); n != "" && n != "_" {
+			env[n] = envEntry{rv, fr.resTypes[i]}
+		}
+	}
+	for _, c := range l.topEnss {
+		t := l.specTerm(c, env)
+		l.assertOb("ensures", c.Label, c.Src, nil, t, clauseProps(l.topCt, c))
+	}
 }
